@@ -12,6 +12,7 @@ import (
 	"math/big"
 	"net"
 	"net/http"
+	"os"
 	"sync"
 	"time"
 
@@ -250,6 +251,13 @@ func (n *fakeNode) notify(nums []uint64, fresh bool) {
 		n.headWhileHeld = true
 	}
 	n.nHeadsSent += len(nums) * len(subs)
+	if debugNotify && len(subs) > 0 {
+		ids := ""
+		for _, s := range subs {
+			ids += " " + string(s.id)
+		}
+		n.logf("node: notify heads %v fresh=%v to subs%s", nums, fresh, ids)
+	}
 	n.mu.Unlock()
 	for _, num := range nums {
 		h := header(num)
@@ -363,15 +371,36 @@ const (
 
 const tick = 1500 * time.Microsecond
 
+var debugNotify = os.Getenv("C13_DUMP_DIR") != "" || os.Getenv("C13_DEBUG") != ""
+
 // wait blocks until cond (evaluated under n.mu) holds, the stream terminated, or the watchdog fires (false).
 func (n *fakeNode) wait(cond func() bool, mode waitMode, watchdog time.Duration) bool {
+	// The watchdog measures inactivity: it is re-armed whenever the client did something the node or the reader can see
+	// (a slow machine is not a stuck client); an absolute cap bounds the whole wait.
 	deadline := time.NewTimer(watchdog)
 	defer deadline.Stop()
+	hardStop := time.Now().Add(6 * watchdog)
 	ticks := 0
+	activity := -1
 	for {
 		n.mu.Lock()
 		ok := cond() || n.fatal || n.streamClosed
 		ch := n.changed
+		if a := n.nGLOK + n.nGLErr + n.nSubOK + n.nSubErr + n.inflight + len(n.entries); a != activity {
+			activity = a
+			if mode == waitEscalate {
+				ticks = 0 // a client that is still making requests is not stuck: do not make its target run away from it
+			}
+			if time.Now().Before(hardStop) {
+				if !deadline.Stop() {
+					select {
+					case <-deadline.C:
+					default:
+					}
+				}
+				deadline.Reset(watchdog)
+			}
+		}
 		n.mu.Unlock()
 		if ok {
 			return true
@@ -573,7 +602,11 @@ func (s *ethSvc) NewHeads(ctx context.Context) (*rpc.Subscription, error) {
 	n.record(srvEvent{Kind: evSubOK})
 	n.subs[sub.ID] = &liveSub{notifier: notifier, id: sub.ID, seq: len(n.ev)}
 	n.nSubOK++
-	n.logf("node: eth_subscribe newHeads -> ok")
+	if debugNotify {
+		n.logf("node: eth_subscribe newHeads -> ok (id %s)", sub.ID)
+	} else {
+		n.logf("node: eth_subscribe newHeads -> ok")
+	}
 	n.bump()
 	n.mu.Unlock()
 	go func() {
